@@ -26,18 +26,24 @@ LEVEL = "translation_validation"
 JOB_TIMEOUT = {"quick": 600, "thorough": 1500}
 TASKS_PER_CHILD = 64
 BOUNDS = {
-    "quick": {"programs": "corpus/cprogs.py (37 C functions) + families of props/_c05progs.py: x op K / K op x with boundary "
-                          "constants K (12-bit immediate edges, lui/addi carry, 32-bit edges), narrow-type IR binops and "
-                          "compares, ABI shapes (8 arguments, register pressure, big frames, byte/halfword globals)",
+    "quick": {"programs": "every program of corpus/cprogs.py (C, riscv type sizes) + props/_c05progs.py: 26 ABI / frame shapes (8 arguments in "
+                          "registers + stack, register pressure, values live across calls, byte/halfword/struct memory traffic, function "
+                          "pointer, dense switch ...), x op K / K op x for 10 operators and 9 boundary constants K (edges of the 12-bit "
+                          "I-immediate, lui/addi carry, 32-bit edges), every IR binary operator and comparison on i8 u8 i16 u16 i32 u32 "
+                          "(IR text through the real reader), unary - ~ with the operand reused, all 30 integer casts, stack frames of "
+                          "100..600 words around the 2 KiB immediate edge",
               "configurations": "optimisation levels 0 and 2, rv32im without rvc; a rotating third of the programs also with rvc",
               "symbolic": "argument registers (all 32 bits; an IR argument narrower than 32 bits is the low part), every other "
                           "register x3..x31, initial bytes of globals without initialiser (<=32 bytes), 16 bytes behind each "
                           "pointer argument, the byte filling all other memory, 4 external call results and what the callee "
                           "leaves in caller-saved registers",
               "unwinding": "400 machine instructions, 400 IR instructions, call depth 8, 120 paths per job (thorough 400), 15 s per "
-                           "branch-feasibility query (paths hitting a bound are cut and counted, nothing is claimed for them)"},
-    "thorough": {"configurations": "every program x levels 0/1/2/s (s also selects ir_to_object(opt='size')) x {rv32im, rv32imc}",
-                 "unwinding": "same"}}
+                           "branch-feasibility query and two undecided branches per job (paths hitting a bound are cut and counted, "
+                           "nothing is claimed for them)"},
+    "thorough": {"programs": "same families with 21 constants K",
+                 "configurations": "every program x levels 0/1/2/s (s also selects ir_to_object(opt='size')) x {rv32im, rv32imc}; the "
+                                   "single-operation IR programs additionally with sign-/zero-extended argument registers",
+                 "unwinding": "same, 400 paths per job"}}
 OUTSIDE = ["ARM, Thumb, m68k, mips, x86_64 and every other target (no ISA model): not claimed",
            "floating point, 64-bit integer types, struct-by-value arguments, inline assembly",
            "programs outside the stated families; executions longer than the unwinding bound",
@@ -50,7 +56,10 @@ ASSUMPTIONS = ["ref/rv32.py states the RISC-V Unprivileged ISA manual 20191213 c
                "execution is defined (no division by zero / overflow, shift count < width, accesses inside a live object)",
                "calling convention = what arch.determine_arg_locations / determine_rv_location / callee_save / caller_save say; "
                "bits of a register above a narrow argument or result are unspecified (a ppci caller passes them unextended)",
-               "the reference is evaluated under the address map of the linked image (globals at their linked addresses)"]
+               "the reference is evaluated under the address map of the linked image (globals at their linked addresses); locals of "
+               "the reference are indeterminate until written (ref/irsem_u.py), bytes that the reference leaves indeterminate "
+               "(copied struct padding) are not compared",
+               "the stack area [sp, sp + 32 KiB) at entry belongs to the caller: only incoming stack-argument slots may be written"]
 SHIMS_USED = []
 RULE = ("one evaluation = one (program, optimisation level, rvc) job: the real compiler runs once, every path of the linked code "
         "is executed symbolically next to the IR reference and compared by the solver for all inputs; non-trivial = more than one path")
